@@ -272,6 +272,13 @@ SPECIAL = [
                                             ('ctx', 'gpointer', []), ('user_data', 'gpointer', [])], ret='void', ret_ann=None),
     dict(name='foo_f7', cbtype=False, params=[('cb', 'FooCb', [('scope', [('call', None)])]), ('user_data', 'gpointer', []),
                                             ('notify', 'GDestroyNotify', [])], ret='void', ret_ann=None),
+    # a length shared by an (out) array and a later array without direction, itself annotated (in): a parameter's direction is
+    # None until something sets it, so the explicit (in) counts as a change and resets the transfer the (out) array gave it
+    dict(name='foo_f13', cbtype=False, params=[('a', 'gchar**', [('out', [('caller-allocates', None)]), ('array', [('length', 'n')])]),
+                                             ('b', 'gint*', [('array', [('length', 'n')])]), ('n', 'gsize', [('in', [])])],
+         ret='void', ret_ann=None),
+    dict(name='foo_f14', cbtype=False, params=[('a', 'gint**', [('out', []), ('array', [('length', 'n')])]), ('n', 'gsize', [('in', [])])],
+         ret='void', ret_ann=None),
 ]
 
 
